@@ -64,7 +64,10 @@ def run_scenario(chk, sc, cfgseed, ndims=3, payload="wild", flavour="sched", wor
     os.makedirs(d)
     src = os.path.join(d, "in")
     out = os.path.join(d, "out")
-    reg = gamma.write_plotfile(src, ap, cfg)
+    # one input in four has level-header rows that are not the extrema of its data: the output's rows are the INPUT's rows
+    stale = (lambda lv, mins, maxs: ({b: [v - 0.5 for v in r] for b, r in mins.items()}, {b: [v + 0.25 for v in r] for b, r in maxs.items()})) \
+        if cfgseed % 4 == 1 else None
+    reg = gamma.write_plotfile(src, ap, cfg, mm_override=stale)
     before = alpha.tree_digest(src)
     Ain = alpha.abstract(src, reg)
     if alpha.wellformed(Ain):
